@@ -4,6 +4,7 @@ package main
 // entries plus the most recent others, independent of schedule and concurrency.
 
 import (
+	"context"
 	"encoding/json"
 	"fmt"
 	"math"
@@ -197,6 +198,54 @@ func runC10(seed int64, tier string, outDir string) *result {
 	res.ModelCases = len(llist.items) + len(flist.items)
 	res.Evaluations = len(loads) + len(fetches)
 	res.Distinct = len(shapes)
+	// the ordering handed to the loader decides which entries a limit keeps: a log ordered by the hash
+	// tiebreak with two heads of ONE identity at the same Lamport time (both heads are start hashes, so
+	// both are always fetched): the kept entries are the last n of the log's own linearisation
+	{
+		ctx := context.Background()
+		w := newWorld()
+		hash := sortFnOf("hash")
+		l1, _ := ipfslog.NewLog(w.api, w.idents["A"], &ipfslog.LogOptions{ID: "T", SortFn: hash})
+		l2, _ := ipfslog.NewLog(w.api, w.idents["A"], &ipfslog.LogOptions{ID: "T", SortFn: hash})
+		for _, p := range []string{"t1", "t2"} {
+			if _, err := l1.Append(ctx, []byte(p), nil); err != nil {
+				panic(err)
+			}
+		}
+		if _, err := l2.Join(l1, -1); err != nil {
+			panic(err)
+		}
+		if _, err := l1.Append(ctx, []byte("left"), nil); err != nil {
+			panic(err)
+		}
+		if _, err := l2.Append(ctx, []byte("right"), nil); err != nil {
+			panic(err)
+		}
+		if _, err := l1.Join(l2, -1); err != nil {
+			panic(err)
+		}
+		mh, err := l1.ToMultihash(ctx)
+		if err != nil {
+			panic(err)
+		}
+		all := hashesOf(l1.Values().Slice())
+		for _, conc := range []int{1, 2, 8} {
+			for n := 1; n <= len(all); n++ {
+				n := n
+				res.Evaluations++
+				lr, err := ipfslog.NewFromMultihash(ctx, w.api, w.idents["B"], mh, &ipfslog.LogOptions{ID: "T", SortFn: hash},
+					&ipfslog.FetchOptions{Length: &n, Concurrency: conc, SortFn: hash})
+				info := map[string]interface{}{"scenario": "limited manifest load of a hash-ordered log with two tied heads", "limit": n, "concurrency": conc}
+				if err != nil {
+					mon.fail("exact-last-n", "C10:manifest:error", err.Error(), info)
+					continue
+				}
+				if got, want := hashesOf(lr.Values().Slice()), all[len(all)-n:]; !eqStrings(got, want) {
+					mon.fail("exact-last-n", "C10:manifest:wrong-entries", fmt.Sprintf("limit %d under the hash ordering given to the loader: got %v, the last %d of the log's linearisation are %v", n, got, n, want), info)
+				}
+			}
+		}
+	}
 	res.Rule = "one evaluation = one limited load (loader x limit n in 0..size+2 x schedule x concurrency) of a stored forked log with skip references, or one limited entry.FetchAll; distinct_nontrivial counts distinct (log, loader, n, recorded event trace) tuples"
 	res.Stats["loads_by_loader"] = stats
 	res.Stats["deviation_counts"] = known
